@@ -57,6 +57,13 @@ def valid_inputs(t, depth=0):
                     out.append(obj(list(req) + [n]))
                 if len(opt) > 1:
                     out.append(obj(list(req) + opt[:2][::-1]))
+                # an explicit null for an optional field is not the same as leaving it out (defaults do not apply)
+                for n in opt[:3]:
+                    if not isinstance(t.fields[n].type, NonNull):
+                        lit, vals = obj(list(req))
+                        vals = dict(vals)
+                        vals[n] = None
+                        out.append((lit[:-1] + (", " if req else "") + f"{n}: null}}", vals))
     elif isinstance(t, Enum):
         for name in t.values:
             out.append((name, name))
